@@ -19,7 +19,9 @@ RULE = ("charts with subsets of the 40 tracks × selections (None, empty, subset
         "non-trivial = a proper non-empty selection or a replaced body; distinct by (chart, selection)")
 
 BAD_BODIES = [["  0 = N 5 0"], ["  5 = N 0 0", "  0 = S 2 1", "  3 = S 2 1"], ["garbage"], ["  10 = N 0 0", "  5 = N 0 0", "  7 = E x"],
-              [], ["  0 = N 7 10", "  0 = N 0 5"], ["  99999999 = N 0 99999999"], ["", "garbage"], ["  "], ["", "", "  5 = N 0 0", ""], ["// note", "  5 = N 0 0 // x"]]
+              [], ["  0 = N 7 10", "  0 = N 0 5"], ["  99999999 = N 0 99999999"], ["", "garbage"], ["  "], ["", "", "  5 = N 0 0", ""], ["// note", "  5 = N 0 0 // x"],
+              # lone opening braces inside a body are body text of that section, however many there are
+              ["{", "  5 = N 0 0"], ["  5 = N 0 0", "{", "{", "  6 = N 1 0"], ["{", "{", "{"], ["  1 = N 0 0", "{"]]
 
 
 def split_tracks(dump: str):
@@ -67,7 +69,7 @@ def slice(ctx: fw.Ctx) -> fw.Outcome:
             if rng.random() < 0.35:  # bare bracket lines naming other sections of this chart (they are body text, not headers)
                 other = rng.choice([t for t, _ in R.sections] + ["Whatever"])
                 body = [f"[{other}]", "  5 = N 4 0"] + (["{", "  6 = N 0 0"] if rng.random() < 0.3 else [])
-                body = [b for b in body if b not in ("{", "}")]
+                body = [b for b in body if b != "}"]
             secs = []
             for t, b in R.sections:
                 secs.append((t, body if t == tag else b))
@@ -82,6 +84,29 @@ def slice(ctx: fw.Ctx) -> fw.Outcome:
             x3 = impl.run_chart(text2, None)
             reqs.append((text2, None))
             meta.append(("isolate-full", text2, None, x3, full))
+    # a header written twice: whatever the file means by that, a selection names the same track the unrestricted parse shows
+    for _ in range(ctx.n(40, 2000)):
+        src = gen.rand_src(rng, prof)
+        if not src.tracks:
+            continue
+        R = gen.render(src, rng, prof, garbage=False)
+        present = sorted({(t.inst, t.diff) for t in src.tracks})
+        twice = rng.choice(src.tracks)
+        tag = gen.header_tag(twice.inst, twice.diff)
+        second = rng.choice([["  7 = N 2 0", "  9 = N 3 5"], [], ["  0 = N 0 0"]] + [b for t, b in R.sections if t not in gen.REQUIRED_TAGS])
+        secs = list(R.sections)
+        secs.insert(rng.randint(next(k for k, (t, _) in enumerate(secs) if t == tag) + 1, len(secs)), (tag, second))
+        lines = []
+        for t, b in secs:
+            lines += [f"[{t}]", "{"] + b + ["}"]
+        text = R.newline.join(lines) + R.newline
+        full = impl.run_chart(text, None)
+        reqs.append((text, None))
+        meta.append(("full", text, None, full, None))
+        for sel in ([(twice.inst, twice.diff)], present, present[:1], [(twice.inst, twice.diff), (rng.randrange(10), rng.randrange(4))]):
+            x = impl.run_chart(text, sel)
+            reqs.append((text, sel))
+            meta.append(("sel", text, [list(k) for k in sel], x, full))
     # the caller's selection object is an input, not scratch space: the same list handed to two parses selects the same tracks
     # twice and is left as it was; a tuple or a generator-free iterable of the same pairs selects the same tracks
     from chartparse.chart import Chart
